@@ -204,9 +204,22 @@ def check_config(job):
         with warnings.catch_warnings():
             warnings.simplefilter("ignore")
             m, mem, wps, rps, doms = build(cfg)
-            sim = symsim.SymSim(m)
     except (TypeError, ValueError) as ex:
         return [dict(base, kind="unconstructible", status="skipped", detail=f"{type(ex).__name__}: {ex}")]
+    try:
+        with warnings.catch_warnings():
+            warnings.simplefilter("ignore")
+            sim = symsim.SymSim(m)
+    except Exception as ex:
+        # a legal port configuration must simulate: confirm on the unmodified simulator
+        from amaranth.sim import Simulator
+        try:
+            with symsim.real_states():
+                Simulator(build(cfg)[0])
+            return [dict(base, kind="construction", status=ERROR, detail=f"SymSim raised {type(ex).__name__}: {ex} but Simulator() does not")]
+        except Exception as ex2:
+            return [dict(base, kind="construction", status=VIOLATION, detail=f"{text}: Simulator(design) raises {type(ex2).__name__}: {ex2}",
+                         signature={"kind": "construction", "exception": type(ex2).__name__}, replay={"cfg": cfg, "construct": True})]
     o = Oracle(cfg)
     depth = cfg["depth"]
     out = []
@@ -403,7 +416,7 @@ def configs(tier, seed):
         init = [r.randint(lo, hi) for _ in range(r.randint(0, depth))]
         doms = ["sync"] if r.random() < 0.7 else ["sync", "b"]
         wports = []
-        for _ in range(r.randint(0, 2)):
+        for _ in range(r.choice([0, 1, 1, 2, 2, 3])):
             gran = None
             if not sg and w > 0 and r.random() < 0.5:
                 if arr is not None:
@@ -430,6 +443,19 @@ def replay(path):
     r = d["replay"]
     cfg = r["cfg"]
     cfg["shape"] = tuple(cfg["shape"])
+    if r.get("hstate"):
+        from vlib import hstate_proof
+        return hstate_proof.replay(r)
+    if r.get("construct"):
+        from amaranth.sim import Simulator
+        try:
+            with symsim.real_states():
+                Simulator(build(cfg)[0])
+        except Exception as ex:
+            print(f"{show(cfg)}: Simulator(design) raises {type(ex).__name__}: {ex}")
+            return 1
+        print("constructs fine")
+        return 0
     ins = {"w": [tuple(t) for t in r["ins"]["w"]], "r": [tuple(t) for t in r["ins"]["r"]]}
     real = concrete_run(cfg, r["rows"], ins, r["rdata"], r["event"])
     want = oracle_concrete(cfg, r["rows"], ins, r["rdata"], r["event"])
